@@ -52,12 +52,13 @@ conf() {
     C05) PKG=c05;;
     C07) PKG=c07;;
     C11) PKG=c11;;
+    C14) PKG=c14;;
     *) return 1;;
   esac
   QT="${QT}"; return 0
 }
 
-ALL_IDS="C01 C02 C03 C05 C07 C11"
+ALL_IDS="C01 C02 C03 C05 C07 C11 C14"
 
 build_one() { # id -> builds $BIN
   conf "$1" || { echo "check.sh: unknown property $1" >&2; return 2; }
